@@ -1,6 +1,6 @@
 import FlytModel.Generated.IR
 import FlytModel.Expected.IR
-/-! The translation of `Flow_Exec` from the CURRENT source is, term for term, the IR the refinement theorems are about. -/
+/-! The translation of `Flow_Exec` from the CURRENT source is, term for term, the expected IR. -/
 namespace Flyt.Tie
 theorem Flow_Exec : Flyt.Generated.IR.Flow_Exec = Flyt.Expected.IR.Flow_Exec := rfl
 end Flyt.Tie
